@@ -507,7 +507,7 @@ func main() {
 		chainmc.ReplayFile(run, m)
 		return
 	}
-	run.SetBudget(7*60e9, 40*60e9)
+	run.SetBudget(7*60e9, 20*60e9)
 	timeFunctions(run)
 	depth := 2
 	if run.Thorough() {
